@@ -181,6 +181,17 @@ Proof.
 Qed.
 Print Assumptions rejected_iff_ill_formed_declaratively.
 
+(* ... which is exactly the boolean well-formedness written independently over the declaration list (SpecWf.wf_spec, the
+   one the kernel also evaluates per generated specification): REJECTED IFF ILL-FORMED *)
+Theorem accepted_iff_wf_spec :
+  forall ds, spec_names_distinct ds = true -> forallb (fun A => negb (is_gen A)) (mentioned_nts ds) = true ->
+    (spec_diags ds = [] <-> spec_wf ds = true).
+Proof.
+  intros ds Hn Hu. rewrite (rejected_iff_ill_formed_declaratively ds Hn Hu). symmetry.
+  unfold spec_wf. apply wf_spec_is_well_formed.
+Qed.
+Print Assumptions accepted_iff_wf_spec.
+
 Fixpoint cp (s : string) : list N :=
   match s with EmptyString => [] | String a t => Ascii.N_of_ascii a :: cp t end.
 Local Open Scope string_scope.
